@@ -176,12 +176,20 @@ func (e *Engine) callFunc(st *State, fn *ssa.Function, binds []Val, args []Val, 
 
 // pureApp applies an uninterpreted function standing for a pure Go function/method.
 func (e *Engine) pureApp(st *State, fn *ssa.Function, args []Val) Val {
-	name := "pure_" + mangle(fn.RelString(nil))
+	name := "pure_" + mangle(stripTypeArgs(fn.RelString(nil)))
 	var sorts, ts []string
+	generic := false
 	for i, a := range args {
 		pt := fn.Params[i].Type()
+		if hasTypeParam(pt) && a.Typ != nil {
+			pt = a.Typ // generic origin used from a spec: take the argument's type
+			generic = true
+		}
 		sorts = append(sorts, e.sortOf(pt))
 		ts = append(ts, e.asTerm(st, e.coerce(a, pt)))
+	}
+	if generic || fn.Origin() != nil || fn.TypeParams() != nil {
+		name += "_" + mangle(strings.Join(sorts, "_"))
 	}
 	rt := fn.Signature.Results().At(0).Type()
 	e.S.DeclareFun(name, sorts, e.sortOf(rt))
